@@ -392,7 +392,22 @@ func privStatementText(r *rand.Rand, k int) string {
 	user := pick(r, []string{"u", `"jdoe"`, `"a b"`})
 	switch k {
 	case 0:
-		return "ALTER RETENTION POLICY rp ON " + db + pick(r, []string{" DURATION 2h", " REPLICATION 2", " DEFAULT", " DURATION 1d REPLICATION 1 SHARD DURATION 1h DEFAULT"})
+		// any non-empty subset of the six options, in any order (round-3 seeded change C19-2 exempted the
+		// statements that carry only FUTURE LIMIT / PAST LIMIT from the admin requirement)
+		opts := []string{" DURATION " + pick(r, []string{"2h", "1d", "INF"}), " REPLICATION " + strconv.Itoa(1+r.Intn(3)), " SHARD DURATION " + pick(r, []string{"1h", "30m"}), " DEFAULT",
+			" FUTURE LIMIT " + pick(r, []string{"10m", "0s", "1h"}), " PAST LIMIT " + pick(r, []string{"10m", "0s", "7d"})}
+		r.Shuffle(len(opts), func(i, j int) { opts[i], opts[j] = opts[j], opts[i] })
+		mask := 1 + r.Intn(63)
+		if r.Intn(3) == 0 {
+			mask = 1 << uint(r.Intn(6)) // a single option
+		}
+		q := "ALTER RETENTION POLICY rp ON " + db
+		for i, o := range opts {
+			if mask&(1<<uint(i)) != 0 {
+				q += o
+			}
+		}
+		return q
 	case 1:
 		q := "CREATE CONTINUOUS QUERY " + pick(r, []string{"cq", `"my cq"`}) + " ON " + db
 		if r.Intn(3) == 0 {
@@ -400,9 +415,23 @@ func privStatementText(r *rand.Rand, k int) string {
 		}
 		return q + " BEGIN " + privSelect(r, 0, 3, true, r.Intn(3) != 0) + " END"
 	case 2:
-		return "CREATE DATABASE " + db + pick(r, []string{"", " WITH DURATION 1d", " WITH DURATION 1d REPLICATION 1 SHARD DURATION 1h NAME rp", " WITH NAME rp"})
+		{
+			// WITH and any subset of the options, in the fixed order the parser requires
+			opts := []string{" DURATION 1d", " REPLICATION 1", " SHARD DURATION 1h", " FUTURE LIMIT 10m", " PAST LIMIT 1h", " NAME rp"}
+			mask := r.Intn(64)
+			q := "CREATE DATABASE " + db
+			if mask != 0 {
+				q += " WITH"
+			}
+			for i, o := range opts {
+				if mask&(1<<uint(i)) != 0 {
+					q += o
+				}
+			}
+			return q
+		}
 	case 3:
-		return "CREATE RETENTION POLICY rp ON " + db + " DURATION " + pick(r, []string{"1h", "INF", "52w"}) + " REPLICATION " + strconv.Itoa(1+r.Intn(3)) + pick(r, []string{"", " SHARD DURATION 30m", " DEFAULT", " SHARD DURATION 1h DEFAULT"})
+		return "CREATE RETENTION POLICY rp ON " + db + " DURATION " + pick(r, []string{"1h", "INF", "52w"}) + " REPLICATION " + strconv.Itoa(1+r.Intn(3)) + pick(r, []string{"", " SHARD DURATION 30m", " DEFAULT", " SHARD DURATION 1h DEFAULT", " FUTURE LIMIT 10m", " PAST LIMIT 1h", " SHARD DURATION 1h DEFAULT FUTURE LIMIT 5m PAST LIMIT 0s", " DEFAULT PAST LIMIT 7d"})
 	case 4:
 		return "CREATE SUBSCRIPTION " + pick(r, []string{"s", `"sub 0"`}) + " ON " + db + ".rp DESTINATIONS " + pick(r, []string{"ALL", "ANY"}) + " 'udp://h:9'" + pick(r, []string{"", ", 'udp://h2:9'"})
 	case 5:
